@@ -205,9 +205,41 @@ def impl_main(payload):
                 if not any((s[0] is None and math.isnan(f)) or (s[0] is not None and s[0] == f) for s in match):
                     viol.append("reported fitness %r does not belong to the constants returned %r" % (f, cs))
                 results.append(dict(case=dict(kind=1, fits=seq), out=out, viol=viol, meta={}))
+        # ---- sequences: an optimised equation loses a constant through a stack edit and goes through the wrapper again.
+        # The number of stored constants must follow the expression; the value is the base fitness of the constants held.
+        from bingo.symbolic_regression.agraph.simplification_backend import simplification_backend as sbk
+        seqv, seqn = [], 0
+        for method in payload.get("shrink_methods", []):
+            for eq, new_last in (("C_0*X_0 + C_1", "dup-first"), ("C_0*X_0*X_0 + C_1*X_0 + C_2", "dup-first")):
+                np.random.seed(payload["seed"] % 1000 + seqn)
+                x = np.linspace(-2, 2, 9).reshape(-1, 1)
+                y = 1.5 * x ** 2 + 0.5
+                fit = ExplicitRegression(ExplicitTrainingData(x, y), metric="mse")
+                lo = LocalOptFitnessFunction(fit, so.ScipyOptimizer(fit, method=method, tol=1e-6, param_init_bounds=[-1, 1]))
+                g = AGraph(equation=eq)
+                lo(g)
+                arr = g.mutable_command_array
+                last = arr[-1].copy()
+                arr[-1] = [last[0], last[1], last[1]]         # a + b  ->  a + a : the last constant is no longer used
+                v = float(lo(g))
+                held = tuple(float(q) for q in g.get_local_optimization_params())
+                n_expr = int(sum(1 for r in sbk.reduce_stack(np.asarray(g.command_array)) if r[0] == 1))
+                seqn += 1
+                if len(held) != n_expr:
+                    seqv.append("after %s lost a constant through a stack edit the wrapper leaves %d constants stored, the expression has %d (%s)"
+                                % (eq, len(held), n_expr, method))
+                g2 = AGraph()
+                g2.command_array = np.asarray(g.command_array).copy()
+                if len(held) == g2.get_number_local_optimization_params():
+                    g2.set_local_optimization_params(held)
+                    want = float(ExplicitRegression(ExplicitTrainingData(x, y), metric="mse")(g2))
+                    if not (v == want or (math.isnan(v) and math.isnan(want))):
+                        seqv.append("second call on the shrunk %s returned %r, base fitness of the constants held is %r (%s)" % (eq, v, want, method))
+                if g.needs_local_optimization():
+                    seqv.append("the shrunk %s still requests optimisation after the wrapper (%s)" % (eq, method))
     finally:
         so.optimize = real_opt
-    return dict(results=results)
+    return dict(results=results, sequences=dict(runs=seqn, viol=seqv))
 
 
 def check(rep, proof):
@@ -229,11 +261,12 @@ def check(rep, proof):
     for i in range(400 if rep.tier == "quick" else 20000):
         k = rng.randint(1, 7)
         cases.append(dict(kind=1, fits=[[rng.choice([None, None, 1, 2, 3, 3, 5, 8]), [j, rng.randint(0, 9)]] for j in range(k)]))
-    rc, res, out, wall = vlib.run_impl("c06", dict(cases=cases, seed=rep.seed), timeout=3400)
+    rc, res, out, wall = vlib.run_impl("c06", dict(cases=cases, seed=rep.seed, shrink_methods=methods if rep.tier == "quick" else methods * 6),
+                                       timeout=3400)
     if res is None:
         rep.violation("implementation harness crashed", dict(relation="corr_C06_localopt", log=out[-3000:]), has_input=False)
         return
-    results = res["results"]
+    results, seqs = res["results"], res["sequences"]
     oracle_bad = [r for r in results if r["viol"]]
     pairs = [(coq_case(r["case"]), r["out"]) for r in results]
     bad, log = vlib.coq_compare("c06", HEADER, RUNNER, pairs)
@@ -250,7 +283,8 @@ def check(rep, proof):
              "with scripted fitness sequences (NaN, ties) and compared with the model's best-of-retries bookkeeping",
         samples=[lo[0]["case"], lo[0]["meta"]] if lo else [],
         correspondence=dict(cases=len(results), disagreements=len(bad)),
-        oracle_violations=len(oracle_bad),
+        oracle_violations=len(oracle_bad) + len(seqs["viol"]),
+        shrink_sequences=dict(runs=seqs["runs"], violations=len(seqs["viol"])),
         distribution=dict(wrapper_calls=len(lo), fallbacks=sum(1 for r in lo if r["meta"].get("fallback")),
                           not_requested=sum(1 for r in lo if not r["case"]["needs"]),
                           stored_fitness_beforehand=sum(1 for r in lo if r["meta"].get("stale")),
@@ -263,6 +297,9 @@ def check(rep, proof):
     if oracle_bad:
         r = oracle_bad[0]
         rep.violation("; ".join(r["viol"][:3]), dict(case=r["case"], meta=r["meta"], oracle=r["viol"]))
+    elif seqs["viol"]:
+        rep.violation(seqs["viol"][0], dict(kind="optimise, lose a constant through a stack edit, optimise again", oracle=seqs["viol"][:4],
+                                            how="tools/props/c06.py impl_main (seed %d)" % rep.seed))
     elif bad:
         first = bad[0]
         j = None if isinstance(first, tuple) else first
